@@ -165,8 +165,8 @@ impl DigitString {
     }
 
     pub fn is_position_free(&self, position: usize) -> bool {
-        let max_pos = self.buffer.len() - 1;
-        position > max_pos || self.buffer[max_pos - position] == b'0'
+        let len = self.buffer.len();
+        position >= len || self.buffer[len - 1 - position] == b'0'
     }
 
     /// check strict emptiness, that is nothing, not even leading zeroes.
